@@ -106,7 +106,8 @@ def interp_fn(m, fn, env, files=None, cls=None, inline=12, max_iter=24, filt=Non
     h = CfgHooks(m, cls, files)
     if filt is not None:
         h.should_inline = filt
-    it = A.Interp(model=m, scope=fn, hooks=h, max_iter=max_iter, exc_edges=False, inline=inline, heap=True, precise_exc=True, max_states=20000)
+    it = A.Interp(model=m, scope=fn, hooks=h, max_iter=max_iter, exc_edges=False, inline=inline, heap=True, precise_exc=True, max_states=20000,
+                  generators=True)
     it.run_init = True
     outs = it.run_function(fn, env=env)
     if it.imprecise:
@@ -212,7 +213,7 @@ def r161(chk, m):
                 ev.append('run(%s)' % ', '.join(show(a) for a in args))
                 return A.NONE
             if isinstance(node.func, ast.Attribute):
-                recv = interp.ev(node.func.value, state) if isinstance(node.func.value, ast.Name) else None
+                recv = interp.ev(node.func.value, state) if isinstance(node.func.value, ast.Name) or node.func.attr in ('parse_args', 'parse_known_args') else None
                 if isinstance(recv, A.Obj) and recv.label == 'config':
                     ev.append('%s(%s)' % (node.func.attr, ', '.join(show(a) if not isinstance(a, dict) else 'data' for a in args)))
                     return A.NONE
